@@ -18,7 +18,7 @@ def run_fuzzer(ctx, b, name, src, corpus, runs, workers, key_prefix, max_len=819
             if (k + i) % 1 == 0:
                 open(os.path.join(cd, 's%04d' % k), 'wb').write(c)
         env = build.san_env({'ASAN_OPTIONS': build.SAN_ENV['ASAN_OPTIONS'].replace('abort_on_error=1', 'abort_on_error=0')})
-        r = subprocess.run([exe, '-runs=%d' % runs, '-seed=%d' % (ctx.seed * 1000 + i + 1), '-max_len=%d' % max_len, '-timeout=60', '-rss_limit_mb=6000',
+        r = subprocess.run([exe, '-runs=%d' % runs, '-seed=%d' % (ctx.seed * 1000 + i + 1), '-max_len=%d' % max_len, '-timeout=60', '-rss_limit_mb=3000',
                             '-artifact_prefix=' + d + '/', '-print_final_stats=1', '-verbosity=0', cd], capture_output=True, env=env)
         err = r.stderr.decode('latin1')
         arts = sorted(glob.glob(os.path.join(d, 'crash-*')) + glob.glob(os.path.join(d, 'timeout-*')) + glob.glob(os.path.join(d, 'oom-*')))
